@@ -57,8 +57,9 @@ def run_driver(bdir, mode, nthreads, iters, seed, tag, env=None, timeout=600):
     try:
         r = subprocess.run([os.path.join(bdir, "conc_drive"), mode, str(nthreads), str(iters), str(seed), out],
                            capture_output=True, text=True, timeout=timeout, env=env)
-    except subprocess.TimeoutExpired:
-        return None, "timeout", ""
+    except subprocess.TimeoutExpired as e:
+        err = e.stderr or b""
+        return None, "timeout", (err.decode(errors="replace") if isinstance(err, bytes) else err)[-200000:]
     if r.returncode != 0 or not os.path.exists(out):
         return None, "exit %s" % r.returncode, r.stderr[-3000:]
     raw = np.fromfile(out, dtype=np.int64).reshape(-1, 8)
